@@ -89,7 +89,12 @@ func (s *indexKVStore) GetValue(bucketID uint32, key []byte) (id uint32, ok bool
 
 // GetValues returns all values for bucket.
 func (s *indexKVStore) GetValues(bucketID uint32) (ids []uint32, err error) {
-	snapshot := s.getSnapshot()
+	// find from memory, with the snapshot which belongs to this state of the memory store
+	s.lock.RLock()
+	snapshot := s.snapshot
+	ids = s.getValuesFromMem(s.mutable, bucketID, ids)
+	ids = s.getValuesFromMem(s.immutable, bucketID, ids)
+	s.lock.RUnlock()
 
 	reader := v1.NewIndexKVReader(snapshot)
 	bucket, err := reader.GetBucket(bucketID)
@@ -98,15 +103,8 @@ func (s *indexKVStore) GetValues(bucketID uint32) (ids []uint32, err error) {
 	}
 	if bucket != nil {
 		defer bucket.Release()
-		ids = bucket.GetValues()
+		ids = append(ids, bucket.GetValues()...)
 	}
-
-	// find from memory
-	s.lock.RLock()
-	defer s.lock.RUnlock()
-
-	ids = s.getValuesFromMem(s.mutable, bucketID, ids)
-	ids = s.getValuesFromMem(s.immutable, bucketID, ids)
 	return ids, nil
 }
 
@@ -161,18 +159,18 @@ func (s *indexKVStore) CollectKVs(bucketID uint32, values *roaring.Bitmap, resul
 		}
 	}
 
-	snapshot := s.getSnapshot()
+	// read memory with the snapshot which belongs to this state of the memory store
+	s.lock.RLock()
+	snapshot := s.snapshot
+	collect(s.mutable)
+	collect(s.immutable)
+	s.lock.RUnlock()
 
 	reader := v1.NewIndexKVReader(snapshot)
 	bucket, err := reader.GetBucket(bucketID)
 	if err != nil {
 		return err
 	}
-
-	s.lock.RLock()
-	collect(s.mutable)
-	collect(s.immutable)
-	s.lock.RUnlock()
 
 	if bucket != nil {
 		defer bucket.Release()
@@ -211,19 +209,19 @@ func (s *indexKVStore) Suggest(bucketID uint32, prefix string, limit int) ([]str
 		return sortResult(result)
 	}
 
-	snapshot := s.getSnapshot()
+	// read memory with the snapshot which belongs to this state of the memory store
+	var result []string
+	s.lock.RLock()
+	snapshot := s.snapshot
+	result = append(result, suggest(s.mutable)...)
+	result = append(result, suggest(s.immutable)...)
+	s.lock.RUnlock()
 
 	reader := v1.NewIndexKVReader(snapshot)
 	bucket, err := reader.GetBucket(bucketID)
 	if err != nil {
 		return nil, err
 	}
-
-	var result []string
-	s.lock.RLock()
-	result = append(result, suggest(s.mutable)...)
-	result = append(result, suggest(s.immutable)...)
-	s.lock.RUnlock()
 
 	if bucket != nil {
 		defer bucket.Release()
@@ -431,7 +429,12 @@ func (s *indexKVStore) GetValueFromMem(bucketID uint32, key []byte) (uint32, boo
 
 // FindValuesByRegexp returns values by regexp expr.
 func (s *indexKVStore) FindValuesByRegexp(bucketID uint32, rp *regexp.Regexp, ids []uint32) ([]uint32, error) {
-	snapshot := s.getSnapshot()
+	// find from memory, with the snapshot which belongs to this state of the memory store
+	s.lock.RLock()
+	snapshot := s.snapshot
+	ids = s.findValuesByRegexp(s.mutable, bucketID, rp, ids)
+	ids = s.findValuesByRegexp(s.immutable, bucketID, rp, ids)
+	s.lock.RUnlock()
 
 	reader := v1.NewIndexKVReader(snapshot)
 	bucket, err := reader.GetBucket(bucketID)
@@ -442,12 +445,6 @@ func (s *indexKVStore) FindValuesByRegexp(bucketID uint32, rp *regexp.Regexp, id
 		defer bucket.Release()
 		ids = bucket.FindValuesByRegexp(rp, ids)
 	}
-	// find from memory
-	s.lock.RLock()
-	defer s.lock.RUnlock()
-
-	ids = s.findValuesByRegexp(s.mutable, bucketID, rp, ids)
-	ids = s.findValuesByRegexp(s.immutable, bucketID, rp, ids)
 	return ids, nil
 }
 
@@ -500,7 +497,13 @@ func (s *indexKVStore) findValuesByLike(bucketID uint32,
 	prefix, subKey []byte,
 	check func(a, b []byte) bool, ids []uint32,
 ) ([]uint32, error) {
-	snapshot := s.getSnapshot()
+	// find from memory, with the snapshot which belongs to this state of the memory store
+	s.lock.RLock()
+	snapshot := s.snapshot
+	ids = s.findValuesByLikeFormMem(s.mutable, bucketID, subKey, check, ids)
+	ids = s.findValuesByLikeFormMem(s.immutable, bucketID, subKey, check, ids)
+	s.lock.RUnlock()
+
 	reader := v1.NewIndexKVReader(snapshot)
 	bucket, err := reader.GetBucket(bucketID)
 	if err != nil {
@@ -510,12 +513,6 @@ func (s *indexKVStore) findValuesByLike(bucketID uint32,
 		defer bucket.Release()
 		ids = bucket.FindValuesByLike(prefix, subKey, check, ids)
 	}
-
-	s.lock.RLock()
-	defer s.lock.RUnlock()
-
-	ids = s.findValuesByLikeFormMem(s.mutable, bucketID, subKey, check, ids)
-	ids = s.findValuesByLikeFormMem(s.immutable, bucketID, subKey, check, ids)
 	return ids, nil
 }
 
